@@ -23,7 +23,15 @@ if ! git -C $M apply $PATCH 2>/tmp/se-$$.err; then
   if git -C $M apply --3way $SD/patch.diff >/dev/null 2>&1 && [ -z "$(git -C $M diff --name-only --diff-filter=U)" ]; then
     git -C $M reset -q; git -C $M diff > $SD/patch.rebased.diff; PATCH=$SD/patch.rebased.diff; echo "patch rebased onto current HEAD (3-way)"
   else
-    echo "APPLY-FAILED $(cat /tmp/se-$$.err | head -2)"; rm -f /tmp/se-$$.err; exit 3
+    # both sides appended helpers at the end of a file, or touched neighbouring lines: GNU patch with offsets and fuzz
+    git -C $M reset -q --hard; git -C $M clean -qfd
+    if (cd $M && patch -p1 -F3 -N --no-backup-if-mismatch < $SD/patch.diff >/dev/null 2>&1) && (cd $M && go build ./... >/dev/null 2>&1); then
+      git -C $M diff > $SD/patch.rebased.diff; PATCH=$SD/patch.rebased.diff; echo "patch rebased onto current HEAD (patch with fuzz)"
+      git -C $M reset -q --hard; git -C $M clean -qfd; git -C $M apply $PATCH
+    else
+      git -C $M reset -q --hard; git -C $M clean -qfd
+      echo "APPLY-FAILED $(cat /tmp/se-$$.err | head -2)"; rm -f /tmp/se-$$.err; exit 3
+    fi
   fi
 fi
 rm -f /tmp/se-$$.err
